@@ -672,7 +672,7 @@ def run(ctx: Ctx):
                 cases.append(c)
                 origins.append(f"seed{ctx.seed}/{k}")
     else:
-        n = 6 if ctx.quick else 100      # 6 (was 12): the corpus grew from 10 to 19 programs; wall time unchanged
+        n = 5 if ctx.quick else 100      # 5 (was 12): the corpus grew from 10 to 19 programs; wall time unchanged
         for k in range(n):
             cases.append(boost_removal_after_write(gen_case(ctx.rng, additive_only=(k % 4 == 0)), ctx.seed, k))
             origins.append(f"seed{ctx.seed}/{k}")
